@@ -596,15 +596,23 @@ def run(ctx):
     # ------------------------------------------------------------------ call histories (caching / aliasing)
     # construct, query, mutate, query again: every answer of the long-lived object is compared with the model evaluated on the
     # CURRENT data (= what a fresh object built from the current data must answer)
-    def q_line(KVo):
+    def q_line(KVo, perm=None):
+        # the six queries are issued in the order `perm` (a fresh object must give the same answers in every order: no query
+        # may depend on another one having filled or repaired a cache first); the line is formatted in a fixed order
         pp = KVo.p
-        msia = KVo.mesh_support_idx_all()
-        msi = KVo.mesh_span_indices()
-        supp = [KVo.mesh_support_idx(j) for j in range(KVo.numdofs)]
-        return 'mesh=%s k2m=%s spans=%d dofs=%d msia=%s msi=%s supp=%s' % (
-            plist(KVo.mesh, frac), plist(KVo._knots_to_mesh.tolist()), KVo.numspans, KVo.numdofs,
-            plist(msia.tolist(), lambda e: '%d,%d' % tuple(e)), plist(msi.tolist()),
-            plist(supp, lambda e: '%d,%d' % (int(e[0]), int(e[1]))))
+        qs = [
+            lambda: plist(KVo.mesh_support_idx_all().tolist(), lambda e: '%d,%d' % tuple(e)),
+            lambda: plist(KVo.mesh_span_indices().tolist()),
+            lambda: plist([KVo.mesh_support_idx(j) for j in range(KVo.numdofs)], lambda e: '%d,%d' % (int(e[0]), int(e[1]))),
+            lambda: plist(KVo.mesh, frac),
+            lambda: (KVo.mesh, plist(KVo._knots_to_mesh.tolist()))[1],   # private table: defined only once a public query filled it
+            lambda: '%d' % KVo.numspans,
+        ]
+        res = [None] * len(qs)
+        for i_ in (perm if perm is not None else range(len(qs))):
+            res[i_] = qs[i_]()
+        msia, msi, supp, mesh_, k2m, spans = res
+        return 'mesh=%s k2m=%s spans=%s dofs=%d msia=%s msi=%s supp=%s' % (mesh_, k2m, spans, KVo.numdofs, msia, msi, supp)
 
     def fresh_q_oracle(karr, pp, got_line, step):
         karr = np.array(karr, dtype=float)
@@ -617,8 +625,10 @@ def run(ctx):
 
     def hist_q(KVo, step, hist):
         karr = np.array(KVo.kv, dtype=float)
+        perm = [int(x) for x in rng.permutation(6)]
+        ctx.count('history: first query = ' + ['mesh_support_idx_all', 'mesh_span_indices', 'mesh_support_idx', 'mesh', '_knots_to_mesh', 'numspans'][perm[0]])
         try:
-            line = q_line(KVo)
+            line = q_line(KVo, perm)
         except AssertionError:
             line = 'err-assertion'
         except Exception as ex:
@@ -665,6 +675,13 @@ def run(ctx):
             _ = K0.findspan(float(mesh[0]))
         hist_q(K0, 'construct', 'refine-reuse')
         newk = rng.uniform(mesh[0], mesh[-1], size=int(rng.integers(1, 4)))
+        rk = int(rng.integers(0, 4))
+        if rk == 1:      # a new knot that coincides with an existing breakpoint
+            newk = np.concatenate((newk, rng.choice(mesh, size=1)))
+        elif rk == 2:    # the same new knot listed twice
+            newk = np.concatenate((newk, newk[:1]))
+        elif rk == 3:    # only existing breakpoints
+            newk = rng.choice(mesh, size=int(rng.integers(1, 3)))
         R = K0.refine(newk)
         hist_q(K0, 'original after refine(new)', 'refine-reuse')
         hist_q(R, 'refined', 'refine-reuse')
